@@ -1355,6 +1355,150 @@ def rule_stored_alias(chk, gp):
 
 
 # ----------------------------------------------------------------------------
+# no state carried from one reaction to the next
+# ----------------------------------------------------------------------------
+def rule_loop_carried(chk, gp, appended):
+    add = gp.method("add_reactions")
+    cname = gp.cls.name
+    where = cname + ".add_reactions"
+    params = {a.arg for a in add.args.args}
+    loops = [st for st in add.body if isinstance(st, ast.For) and isinstance(st.iter, ast.Name) and st.iter.id in params]
+    if len(loops) != 1:
+        raise core.AnalysisError("add_reactions: the reaction loop was not found")
+    loop = loops[0]
+    g = cfgm.CFG(add)
+    head = g.node_of(loop)
+    comp_targets = {n.id for c in ast.walk(loop) if isinstance(c, ast.comprehension) for n in ast.walk(c.target)
+                    if isinstance(n, ast.Name)}
+    # definitions inside the body: name -> CFG node ids
+    defs = {}
+    body_nodes = set()
+    todo = [v for v in g.succ[head.id] if g.edge_label.get((head.id, v)) == "T"]
+    while todo:
+        u = todo.pop()
+        if u in body_nodes or u == head.id:
+            continue
+        body_nodes.add(u)
+        todo.extend(g.succ[u])
+    for nid in body_nodes:
+        n = g.nodes[nid]
+        node = n.ast
+        if node is None:
+            continue
+        tg = []
+        if n.kind == "stmt" and isinstance(node, ast.Assign):
+            tg = node.targets
+        elif n.kind == "stmt" and isinstance(node, (ast.AugAssign, ast.AnnAssign)):
+            tg = [node.target]
+        elif n.kind == "iter":
+            tg = [node.target]
+        elif n.kind == "with":
+            tg = [i.optional_vars for i in node.items if i.optional_vars is not None]
+        for t in tg:
+            for x in (ast.walk(t) if isinstance(t, (ast.Tuple, ast.List, ast.Name)) else []):
+                if isinstance(x, ast.Name) and isinstance(x.ctx, ast.Store):
+                    defs.setdefault(x.id, set()).add(nid)
+    for nm in loop.target.elts if isinstance(loop.target, ast.Tuple) else [loop.target]:
+        if isinstance(nm, ast.Name):
+            defs.setdefault(nm.id, set()).add(head.id)
+    # names that feed the rows stored for the reaction
+    tracked = {k[1] for k in appended}
+    feed, todo = set(), []
+    for x in pf.walk_no_nested(loop):
+        gr = growth(x)
+        if gr and gr[1] in tracked:
+            for a in x.args:
+                todo += [n.id for n in ast.walk(a) if isinstance(n, ast.Name)]
+    flow = {}
+    for x in pf.walk_no_nested(loop):
+        if isinstance(x, (ast.Assign, ast.AugAssign)):
+            ts = x.targets if isinstance(x, ast.Assign) else [x.target]
+            for t in ts:
+                r = pf.base_name(t)
+                if r:
+                    flow.setdefault(r, set()).update(n.id for n in ast.walk(x.value) if isinstance(n, ast.Name))
+                    # control dependence: the tests that decide whether this assignment runs
+                    for tst, pol, kind in cfgm.conditions_at(x, stop=loop):
+                        flow[r].update(n.id for n in ast.walk(tst) if isinstance(n, ast.Name))
+    while todo:
+        nm = todo.pop()
+        if nm in feed:
+            continue
+        feed.add(nm)
+        todo.extend(flow.get(nm, ()))
+    start = [v for v in g.succ[head.id] if g.edge_label.get((head.id, v)) == "T"]
+    for nm in sorted((set(defs) & feed) - comp_targets):
+        dn = defs[nm]
+        if head.id in dn:
+            chk.ok("loop-carried", "%s: %s is bound by the reaction loop itself" % (where, nm), nontrivial=False)
+            continue
+        bad = None
+        for nid in sorted(body_nodes):
+            n = g.nodes[nid]
+            reads = []
+            for root in _node_exprs(n):
+                for x in ast.walk(root):
+                    if isinstance(x, ast.Name) and x.id == nm and isinstance(x.ctx, ast.Load):
+                        reads.append(x)
+            if isinstance(n.ast, ast.AugAssign) and n.kind == "stmt" and pf.base_name(n.ast.target) == nm \
+                    and isinstance(n.ast.target, ast.Name):
+                reads.append(n.ast.target)
+            if not reads:
+                continue
+            # can the read be reached from the start of this iteration without a definition of nm?
+            seen, work = set(), list(start)
+            reach = False
+            while work:
+                u = work.pop()
+                if u in seen or u == head.id or u not in body_nodes:
+                    continue
+                seen.add(u)
+                if u == nid:
+                    reach = True
+                    break
+                if u in dn:
+                    continue
+                work.extend(g.succ[u])
+            if reach:
+                bad = (n, reads[0])
+                break
+        inst = "%s: %s is (re)defined in every iteration before it is read" % (where, nm)
+        if bad is None:
+            chk.ok("loop-carried", inst)
+        else:
+            n, rd = bad
+            pre = any(isinstance(x, ast.Assign) and any(isinstance(t, ast.Name) and t.id == nm for t in x.targets)
+                      for x in add.body if x is not loop and getattr(x, "lineno", 0) < loop.lineno)
+            chk.violation("loop-carried", TR, where, "local %s" % nm, getattr(n.ast, "lineno", loop.lineno),
+                          "`%s` is assigned only conditionally inside one iteration of the reaction loop%s, yet it is "
+                          "read (`%s`) on a path of the same iteration that does not assign it, and it feeds the "
+                          "label / noise / covariance row stored for the reaction: a reaction that does not set it "
+                          "inherits the value left behind by the previous reaction, so the result depends on the "
+                          "order in which reactions are added"
+                          % (nm, " (it is initialised once before the loop)" if pre else "",
+                             pf.src(n.ast).split("\n")[0][:80]), instance=inst)
+
+
+def _node_exprs(n):
+    st = n.ast
+    if st is None:
+        return []
+    if n.kind == "test":
+        return [st.test]
+    if n.kind == "iter":
+        return [st.iter]
+    if n.kind == "with":
+        return [i.context_expr for i in st.items]
+    if n.kind == "handler" or isinstance(st, ast.Try):
+        return []
+    if isinstance(st, ast.Assign):
+        return [st.value] + [t for t in st.targets if not isinstance(t, ast.Name)]
+    if isinstance(st, ast.AugAssign):
+        return [st.value] + ([st.target] if not isinstance(st.target, ast.Name) else [])
+    return [st]
+
+
+# ----------------------------------------------------------------------------
 def _analyse_own(chk):
     # statement-level helper calls are inlined one level so that the rules see one body per anchored method
     prog = inline.inlined_program(chk.tree, [TR, DK, XE, XE2])
@@ -1364,6 +1508,7 @@ def _analyse_own(chk):
     MODULE_CONSTS.update({k: v for k, v in mod.assigns.items()})
     chk.rule("memo-invalidate", "a cached attribute served under a guard is reset by every method that writes one of its inputs")
     chk.rule("pairing", "sibling loops over the systems of one reaction iterate the same (structs, counts) pairing")
+    chk.rule("loop-carried", "locals feeding the stored rows are (re)defined in every iteration of the reaction loop")
     chk.rule("stored-alias", "add_reactions never accumulates in place into an alias of the stored per-system arrays")
     chk.rule("fit-snapshot", "state stored by fit is not a pre-rescaling copy later combined with post-rescaling state")
     chk.rule("reset-append", "containers read by fit == appended by add_reactions ⊆ emptied by reset_reactions")
@@ -1382,6 +1527,7 @@ def _analyse_own(chk):
         res = chk.guard(rule_reset_append, gp)
         if res:
             chk.guard(rule_row_once, gp, res[0])
+            chk.guard(rule_loop_carried, gp, res[0])
         chk.guard(rule_fit, gp)
         chk.guard(rule_pairing, gp)
         chk.guard(rule_snapshot, gp)
@@ -1400,6 +1546,7 @@ def _analyse_own(chk):
     chk.floor("reset-append", 3, "partition + 3 containers + __init__")
     chk.floor("row-once", 2, "rxn_ref_list, rxn_noise_list, rxn_cov_list of xkernels and of ckernels")
     chk.floor("memo-invalidate", 1, "DFTKernel.get_kctrl computes and returns self.Kmm")
+    chk.floor("loop-carried", 2, "rxn_ref, noise, rxn_cov")
     chk.floor("stored-alias", 1, "MOLGP.add_reactions")
     chk.floor("pairing", 1, "six loops over zip(rxn['structs'], rxn['counts'])")
     chk.floor("fit-snapshot", 2, "Kcov_, K_, alpha_mol_, y_mol_")
@@ -1460,6 +1607,16 @@ def analyse(chk):
                                                why='K_mm assembled by DFTKernel.get_kctrl must be the same symmetric sum of products as get_k, otherwise fit factorises a different matrix'))
 
 
+
+def _seed_unit(text):
+    a = "        for mode, rxn in rxn_list:\n            if mode == 1:"
+    b = '                if rxn.get("unit") is None:\n                    rxn["unit"] = 0.00159360109742136  # kcal/mol per Ha\n                rxn_ref += rxn["energy"] * rxn["unit"]\n'
+    if a not in text or b not in text:
+        return None
+    text = text.replace(a, "        unit = 0.00159360109742136\n" + a, 1)
+    return text.replace(b, '                if rxn.get("unit") is not None:\n                    unit = rxn["unit"]\n                rxn_ref += rxn["energy"] * unit\n', 1)
+
+
 def mutants(tree):
     return [
         Mutant("forget rxn_noise_list in reset", TR, "        self.rxn_noise_list = []\n", "", expect="reset-append"),
@@ -1511,6 +1668,12 @@ def mutants(tree):
                "            for kernel in self.xkernels:\n                rxn_cov = 0\n                for sysid, count in zip(rxn[\"structs\"], rxn[\"counts\"]):\n                    if isinstance(sysid, tuple):\n                        rxn_cov += count * kernel.dcov_dict[sysid[0]][sysid[1]]",
                "            for kernel in self.xkernels:\n                rxn_cov = None\n                for sysid, count in zip(rxn[\"structs\"], rxn[\"counts\"]):\n                    if rxn_cov is None and not isinstance(sysid, tuple):\n                        rxn_cov = kernel.cov_dict[sysid]\n                        continue\n                    if isinstance(sysid, tuple):\n                        rxn_cov += count * kernel.dcov_dict[sysid[0]][sysid[1]]",
                expect="stored-alias"),
+        Mutant("default unit kept in a local set before the loop", TR, fn=_seed_unit, expect="loop-carried"),
+        Mutant("noise default only when absent, no else", TR,
+               "            else:\n                noise = self.default_noise\n            if rxn.get(\"noise_rel_factor\")",
+               "            if rxn.get(\"noise_rel_factor\")", expect="loop-carried"),
+        Mutant("label not reset per reaction", TR, "            rxn_ref = 0\n            if mode == 0:",
+               "            if mode == 0:\n                rxn_ref = 0", expect="loop-carried"),
         Mutant("noise block snapshot before the rescaling", TR, fn=_seed_snapshot, expect="fit-snapshot"),
         Mutant("noise not squared", TR, "        noise_nn = noise_nn**2  # get noise covariance from noise std deviation\n", "",
                expect="fit-system"),
